@@ -291,24 +291,42 @@ Theorem C08_linker_solve_nil :
     linker_solve_M num sub absf ltb zero sev pre ebefore eafter post sel o [] s = (s, inr []).
 Proof. exact linker_solve_nil. Qed.
 
-(* ---------------------------------------------------------------- constructor *)
+(* ---------------------------------------------------------------- constructor (after fix ee9fcdf) *)
+(* span_elems sp = the sequence of elements iterating over the span yields, as (class, number): class 0 = integer
+   (list, tuple, range, NumPy array, pandas Index), 1 = pandas Period (PeriodIndex), 2 = pandas Timestamp (DatetimeIndex) *)
+(* the span test as coded — lengths, then element by element over the zip — decides "same sequence of elements",
+   for every pair of container kinds *)
+Theorem C08_span_test_decides_equal_elements :
+  forall a b : pspan,
+    (negb (Nat.eqb (length (sp_labels a)) (length (sp_labels b))) || any_ne (span_elems a) (span_elems b)) = false
+    <-> span_elems a = span_elems b.
+Proof. exact spans_differ_spec. Qed.
+
+Theorem C08_span_elements_equal_iff :
+  forall a b : pspan,
+    span_elems a = span_elems b <->
+    sp_labels a = sp_labels b /\ (sp_labels a = [] \/ elt_class (sp_kind a) = elt_class (sp_kind b)).
+Proof. exact span_elems_eq. Qed.
+
+(* spans differing in length or in any position are rejected with InitialisationError, whatever the container kinds *)
 Theorem C08_ctor_rejects_differing_spans :
   forall (id0 : sid) (b : subinfo) (rest : list (sid * subinfo)),
-    (forall ic, In ic rest -> exists r, span_ne (si_span (snd ic)) (si_span b) = Ret r) ->
-    (exists ic, In ic rest /\ span_ne (si_span (snd ic)) (si_span b) = Ret true) ->
+    (exists ic, In ic rest /\ span_elems (si_span (snd ic)) <> span_elems (si_span b)) ->
     linker_ctor_M ((id0, b) :: rest) None = Raise InitialisationError.
 Proof. exact ctor_rejects_differing_spans. Qed.
 
-Theorem C08_ctor_rejects_differing_list_spans :
+Theorem C08_ctor_rejects_differing_labels :
   forall (id0 : sid) (b : subinfo) (rest : list (sid * subinfo)),
-    sp_kind (si_span b) = SList -> (forall ic, In ic rest -> sp_kind (si_span (snd ic)) = SList) ->
     (exists ic, In ic rest /\ sp_labels (si_span (snd ic)) <> sp_labels (si_span b)) ->
     linker_ctor_M ((id0, b) :: rest) None = Raise InitialisationError.
-Proof. exact ctor_rejects_differing_list_spans. Qed.
+Proof. exact ctor_rejects_differing_labels. Qed.
 
+(* identical spans of ANY kind are accepted — incl. NumPy arrays and pandas indexes (ValueError before the fix) and
+   mixed integer-labelled kinds such as a list next to a range with equal elements (rejected before the fix); the
+   linker carries the first submodel's span and the maxima of LAGS / LEADS, each attained by some submodel *)
 Theorem C08_lags_leads_are_maxima :
   forall (id0 : sid) (b : subinfo) (rest : list (sid * subinfo)),
-    (forall ic, In ic rest -> span_ne (si_span (snd ic)) (si_span b) = Ret false) ->
+    (forall ic, In ic rest -> span_elems (si_span (snd ic)) = span_elems (si_span b)) ->
     exists L D, linker_ctor_M ((id0, b) :: rest) None = Ret (si_span b, L, D) /\
       (forall ic, In ic ((id0, b) :: rest) -> si_LAGS (snd ic) <= L) /\
       (exists ic, In ic ((id0, b) :: rest) /\ si_LAGS (snd ic) = L) /\
@@ -316,15 +334,22 @@ Theorem C08_lags_leads_are_maxima :
       (exists ic, In ic ((id0, b) :: rest) /\ si_LEADS (snd ic) = D).
 Proof. exact lags_leads_are_maxima. Qed.
 
+Theorem C08_ctor_accepts_identical_spans_any_kind :
+  forall (id0 : sid) (b : subinfo) (rest : list (sid * subinfo)),
+    (forall ic, In ic rest -> si_span (snd ic) = si_span b) ->
+    exists L D, linker_ctor_M ((id0, b) :: rest) None = Ret (si_span b, L, D).
+Proof. exact ctor_accepts_identical_spans_any_kind. Qed.
+
+(* accepted iff every later submodel yields the first one's sequence of elements: the constructor never fails otherwise *)
+Theorem C08_ctor_accepts_iff :
+  forall (id0 : sid) (b : subinfo) (rest : list (sid * subinfo)),
+    (exists r, linker_ctor_M ((id0, b) :: rest) None = Ret r) <->
+    (forall ic, In ic rest -> span_elems (si_span (snd ic)) = span_elems (si_span b)).
+Proof. exact ctor_accepts_iff. Qed.
+
 Theorem C08_ctor_empty :
   forall span, linker_ctor_M [] span = Ret (match span with Some sp => sp | None => mkSpan SList [] end, 0, 0).
 Proof. exact ctor_empty. Qed.
-
-(* identical NumPy-array / pandas-Index spans are NOT accepted (ValueError from the span test): new finding *)
-Theorem C08_ctor_array_spans_refuted :
-  exists subs, (forall ic, In ic subs -> si_span (snd ic) = mkSpan SArray [1; 2]) /\ (2 <= length subs)%nat /\
-               linker_ctor_M subs None = Raise ValueError.
-Proof. exact ctor_array_spans_refuted. Qed.
 
 (* ---------------------------------------------------------------- the convergence clause, entry by entry *)
 (* cv k = the check values after k iterations: one vector for the linker, then one per SELECTED submodel in insertion
@@ -424,26 +449,81 @@ Theorem C08_user_exception_stamps_nothing :
     Forall2 (fun a b : sid * comp num => fst a = fst b /\ status (c_st (snd b)) = status (c_st (snd a))) (l_subs s) (l_subs s').
 Proof. exact user_exception_stamps_nothing. Qed.
 
+(* on EVERY path every status entry (linker and submodels) is afterwards what it was or ONE value x, x = '.' or 'F':
+   the linker never writes 'E' / 'S' and never two different statuses in one call *)
+Theorem C08_solve_t_stamps_only_solved_or_failed :
+  forall (num : Type) (sub : num -> num -> num) (absf : num -> num) (ltb : num -> num -> bool) (zero : num)
+         (sev : sid -> hook num) (pre ebefore eafter post : lhook num)
+         (sel : option (list sid)) (o : opts num) (t : Z) (s : lstate num),
+    let s' := fst (linker_solve_t_M num sub absf ltb zero sev pre ebefore eafter post sel o t s) in
+    exists x : st, (x = Solved \/ x = Failed) /\
+      (length (status (c_st (l_core s'))) = length (status (c_st (l_core s))) /\
+       forall q, nth_error (status (c_st (l_core s'))) q = nth_error (status (c_st (l_core s))) q \/
+                 nth_error (status (c_st (l_core s'))) q = Some x) /\
+      Forall2 (fun a b : sid * comp num => fst a = fst b /\
+                 length (status (c_st (snd b))) = length (status (c_st (snd a))) /\
+                 forall q, nth_error (status (c_st (snd b))) q = nth_error (status (c_st (snd a))) q \/
+                           nth_error (status (c_st (snd b))) q = Some x) (l_subs s) (l_subs s').
+Proof. exact solve_t_stamps_only_solved_or_failed. Qed.
+
+(* errors= / catch_first_error reach a call only as arguments handed down to the hooks and to _evaluate: if those do
+   not react to them, every policy and either flag give the same run (the linker has no error policy of its own) *)
+Theorem C08_linker_errors_only_handed_down :
+  forall (num : Type) (sub : num -> num -> num) (absf : num -> num) (ltb : num -> num -> bool) (zero : num)
+         (sev : sid -> hook num) (pre ebefore eafter post : lhook num),
+    (forall id t em cf em' cf' k v, sev id t em cf k v = sev id t em' cf' k v) ->
+    (forall t ids em cf em' cf' k jv, pre t ids em cf k jv = pre t ids em' cf' k jv) ->
+    (forall t ids em cf em' cf' k jv, ebefore t ids em cf k jv = ebefore t ids em' cf' k jv) ->
+    (forall t ids em cf em' cf' k jv, eafter t ids em cf k jv = eafter t ids em' cf' k jv) ->
+    (forall t ids em cf em' cf' k jv, post t ids em cf k jv = post t ids em' cf' k jv) ->
+    forall (sel : option (list sid)) (o : opts num) (em : errmode) (cf : bool) (t : Z) (s : lstate num),
+    linker_solve_t_M num sub absf ltb zero sev pre ebefore eafter post sel
+      (mkOpts (min_iter o) (max_iter o) (tol o) (offset o) (fail_raise o) em cf) t s
+    = linker_solve_t_M num sub absf ltb zero sev pre ebefore eafter post sel o t s.
+Proof. exact linker_errors_only_handed_down. Qed.
+
+(* solve(): when the periods ps1 solve and the next period t raises, the exception surfaces unchanged, later periods are
+   not attempted, and every status / iteration entry of the linker and of every submodel at a position other than t's —
+   the stamps of the earlier periods — is exactly what solving ps1 alone leaves *)
+Theorem C08_linker_solve_failure_containment :
+  forall (num : Type) (sub : num -> num -> num) (absf : num -> num) (ltb : num -> num -> bool) (zero : num)
+         (sev : sid -> hook num) (pre ebefore eafter post : lhook num)
+         (sel : option (list sid)) (o : opts num) (t : Z) (ps2 ps1 : list Z) (s s1 : lstate num) (bs : list bool)
+         (s2 : lstate num) (e : lexn),
+    min_iter o <= max_iter o ->
+    linker_solve_M num sub absf ltb zero sev pre ebefore eafter post sel o ps1 s = (s1, inr bs) ->
+    linker_solve_t_M num sub absf ltb zero sev pre ebefore eafter post sel o t s1 = (s2, LRaise e) ->
+    linker_solve_M num sub absf ltb zero sev pre ebefore eafter post sel o (ps1 ++ t :: ps2) s = (s2, inl e) /\
+    let keeps := fun (A : Type) (l l' : list A) =>
+      length l' = length l /\ forall q, py_pos (length l) t <> Some q -> nth_error l' q = nth_error l q in
+    (keeps st (status (c_st (l_core s1))) (status (c_st (l_core s2))) /\
+     keeps Z (iters (c_st (l_core s1))) (iters (c_st (l_core s2)))) /\
+    Forall2 (fun a b : sid * comp num => fst a = fst b /\
+               keeps st (status (c_st (snd a))) (status (c_st (snd b))) /\
+               keeps Z (iters (c_st (snd a))) (iters (c_st (snd b)))) (l_subs s1) (l_subs s2).
+Proof. exact linker_solve_failure_containment. Qed.
+
 (* ---------------------------------------------------------------- constructor, read backwards *)
-(* a linker over >= 1 submodels exists only if no span test answered "differs" or failed; it then carries the first
+(* a linker over >= 1 submodels exists only if every submodel yields the first one's elements; it then carries the first
    submodel's span and the maxima of LAGS / LEADS (each attained by some submodel) *)
 Theorem C08_ctor_accepted_implies_equal_spans_and_maxima :
   forall (id0 : sid) (b : subinfo) (rest : list (sid * subinfo)) (sp : pspan) (lg ld : Z),
     linker_ctor_M ((id0, b) :: rest) None = Ret (sp, lg, ld) ->
     sp = si_span b /\
-    (forall ic, In ic rest -> span_ne (si_span (snd ic)) (si_span b) = Ret false) /\
+    (forall ic, In ic rest -> span_elems (si_span (snd ic)) = span_elems (si_span b)) /\
     (forall ic, In ic ((id0, b) :: rest) -> si_LAGS (snd ic) <= lg) /\
     (exists ic, In ic ((id0, b) :: rest) /\ si_LAGS (snd ic) = lg) /\
     (forall ic, In ic ((id0, b) :: rest) -> si_LEADS (snd ic) <= ld) /\
     (exists ic, In ic ((id0, b) :: rest) /\ si_LEADS (snd ic) = ld).
 Proof. exact ctor_accept_inv. Qed.
 
-(* for list / range spans: every submodel of an accepted linker has exactly the first submodel's period labels *)
+(* every submodel of an accepted linker has exactly the first submodel's period labels (and element class) *)
 Theorem C08_ctor_accepts_only_equal_spans :
   forall (id0 : sid) (b : subinfo) (rest : list (sid * subinfo)) (sp : pspan) (lg ld : Z),
     linker_ctor_M ((id0, b) :: rest) None = Ret (sp, lg, ld) ->
-    forall ic, In ic rest -> sp_kind (si_span (snd ic)) <> SArray -> sp_kind (si_span b) <> SArray ->
-    sp_labels (si_span (snd ic)) = sp_labels (si_span b).
+    forall ic, In ic rest ->
+    sp_labels (si_span (snd ic)) = sp_labels (si_span b) /\
+    (sp_labels (si_span (snd ic)) = [] \/ elt_class (sp_kind (si_span (snd ic))) = elt_class (sp_kind (si_span b))).
 Proof. exact ctor_accepts_only_equal_spans. Qed.
 
 (* ---------------------------------------------------------------- solve(start=, end=) over label ranges *)
@@ -581,16 +661,22 @@ Print Assumptions C08_linker_solve_min_gt_max.
 Print Assumptions C08_linker_solve_cons.
 Print Assumptions C08_linker_solve_nil.
 Print Assumptions C08_ctor_rejects_differing_spans.
-Print Assumptions C08_ctor_rejects_differing_list_spans.
+Print Assumptions C08_ctor_rejects_differing_labels.
+Print Assumptions C08_span_test_decides_equal_elements.
+Print Assumptions C08_span_elements_equal_iff.
+Print Assumptions C08_ctor_accepts_identical_spans_any_kind.
+Print Assumptions C08_ctor_accepts_iff.
 Print Assumptions C08_lags_leads_are_maxima.
 Print Assumptions C08_ctor_empty.
-Print Assumptions C08_ctor_array_spans_refuted.
 Print Assumptions C08_single_model_linker_eq_model.
 Print Assumptions C08_solved_iff_all_moved_lt_tol.
 Print Assumptions C08_check_vectors_keep_shape.
 Print Assumptions C08_solve_t_other_periods_untouched.
 Print Assumptions C08_solve_other_periods_untouched.
 Print Assumptions C08_user_exception_stamps_nothing.
+Print Assumptions C08_solve_t_stamps_only_solved_or_failed.
+Print Assumptions C08_linker_errors_only_handed_down.
+Print Assumptions C08_linker_solve_failure_containment.
 Print Assumptions C08_ctor_accepted_implies_equal_spans_and_maxima.
 Print Assumptions C08_ctor_accepts_only_equal_spans.
 Print Assumptions C08_linker_solve_span_min_gt_max.
@@ -604,5 +690,7 @@ Print Assumptions lx_hypotheses_satisfiable.
 Print Assumptions lx_single_hypotheses_satisfiable.
 Print Assumptions lx_qualifies_at_4.
 Print Assumptions lx_user_raise.
+Print Assumptions lx_errors_hypotheses_satisfiable.
+Print Assumptions lx_failure_containment_hypotheses_satisfiable.
 Print Assumptions lx_span_hypotheses_satisfiable.
 Print Assumptions lx_default_range_hypotheses_satisfiable.
